@@ -3,6 +3,9 @@ import YaqsModel.Lemmas.TrotterBonds
 import YaqsModel.Lemmas.TrotterBlk
 import YaqsModel.Lemmas.TrotterGRat
 import YaqsModel.Lemmas.MpoConv
+import YaqsModel.Lemmas.TrotterLimit
+import YaqsModel.Lemmas.TrotterMatrix
+import YaqsModel.Lemmas.TrotterPauli
 
 /-!
 # C07 — model library: MPO builders equal their definition; Trotter circuits match them
@@ -930,3 +933,361 @@ theorem svd_inputs_spec (d : Nat) (cutoff tol : Rat) (maxB : Option Nat) (m lr :
 end compression
 
 end Yaqs.MpoConv
+
+/-!
+# C07, extension xt07 — Trotter consistency as a theorem (models `Lemmas/TrotterLimit.lean`, `TrotterMatrix.lean`, `TrotterPauli.lean`)
+
+The clause "every Trotter circuit of the circuit library converges, as the step shrinks, to `exp(-iHT)` of the Hamiltonian it
+documents", which the first pass only cited (Lie–Trotter) and measured by step halving.  Now proved with Mathlib's matrix
+exponential over `Matrix n n ℂ`:
+
+* `product_formula_deriv`, `product_formula_first_order` — for ANY finite list of matrices, in ANY order, the product
+  `F(t) = exp(tA₁)⋯exp(tA_m)` has `F(0) = 1`, `F'(0) = ΣA_k`, and `(F(t) − exp(tΣA))/t → 0`;
+* `product_formula_second_order`, `unitary_pow_sub_pow_le`, `trotter_converges` — `‖F(t) − exp(tΣA)‖ ≤ s²e^s·t²` (`|t| ≤ 1`,
+  `s = Σ‖A_k‖`, spectral norm), powers of unitaries differ by at most `N‖U − V‖`, hence for skew-Hermitian `A_k`
+  `‖F(T/N)^N − exp(TΣA)‖ ≤ T²s²e^{|T|s}/N` and `F(T/N)^N → exp(TΣA)`;
+* `pauli_string_matrix`, `generator_skew`, `step_generators_scale`, `circuit_unitary_is_power` — the dense matrices of the
+  model's Pauli strings / generators, linearity of the generators in `dt`, the circuit unitary is the step unitary to the
+  power `timesteps`;
+* `ising_step_consistent`, `heisenberg_step_consistent`, `ising2d_step_consistent`, `heisenberg2d_step_consistent` — the
+  derivative at `dt = 0` of one circuit step of each spin builder is `-i·H` of the documented Hamiltonian (through the
+  `…_step_generators` theorems above: a permutation of the factors does not change the sum);
+* `ising_trotter_converges`, `heisenberg_trotter_converges`, `ising2d_trotter_converges`, `heisenberg2d_trotter_converges` —
+  the circuit of `N` steps of size `T/N` is within `C·T²/N` of `exp(-iTH)` and converges to it;
+* `circuit_mpo_same_hamiltonian`, `ising_circuit_mpo_same_hamiltonian`, `heisenberg_circuit_mpo_same_hamiltonian` — that `H` is
+  entry by entry the path sum of the automaton `from_pauli_sum` builds for `MPO.ising` / `MPO.heisenberg` (`fsm_sum`), at the
+  digits where `to_matrix` places it (`index_digits`).
+
+Still outside a theorem: the Fermi–Hubbard builders (their gates are not Pauli rotations of the model's `gateGen`; angles,
+bond lists and time bookkeeping are `angle_sign_hubbard`, `hubbard_chain_bonds`, `hubbard_time_bookkeeping`; consistency and
+convergence are measured by the `trotter-deriv` / `trotter-*` oracles), and that qiskit's `rx/rz/rzz/rxx/ryy(θ)` are
+`exp(-iθ/2·P)` (C18 `generator_exp` for yaqs' own gate library; spec-tied for qiskit on every run).
+-/
+namespace Yaqs.Trotter
+
+open Matrix NormedSpace Filter Topology Yaqs.TrotterLimit
+
+section product_formula
+variable {n : Type} [Fintype n] [DecidableEq n]
+
+open scoped Matrix.Norms.Operator in
+/-- **C07 (`product_formula_deriv`: first-order consistency of every product formula)** For any finite list of complex
+    `n × n` matrices `A₁ … A_m`, in any order, `F(t) = exp(tA₁)·exp(tA₂)⋯exp(tA_m)` satisfies `F(0) = 1` and
+    `F'(0) = A₁ + … + A_m` (induction on the list with the product rule).  One Trotter step of a library circuit is such an
+    `F` with `A_k = -i c_k P_k`. -/
+theorem product_formula_deriv (As : List (Matrix n n ℂ)) :
+    prodExp As 0 = 1 ∧ HasDerivAt (prodExp As) As.sum 0 :=
+  ⟨prodExp_zero As, hasDerivAt_prodExp As⟩
+
+open scoped Matrix.Norms.Operator in
+/-- **C07 (the ordering of the factors does not matter at first order)** if `Bs` is a rearrangement of `As` then
+    `(exp(tA₁)⋯exp(tA_m) − exp(t·ΣB))/t → 0` as `t → 0`: the product formula of `As` is a consistent one-step method for the
+    flow of `ΣB = ΣA`.  This is why the permutation in `ising_step_generators` / `heisenberg_step_generators` is harmless. -/
+theorem product_formula_first_order (As Bs : List (Matrix n n ℂ)) (h : As.Perm Bs) :
+    As.sum = Bs.sum ∧
+    Tendsto (fun t : ℝ => t⁻¹ • (prodExp As t - exp (t • Bs.sum))) (𝓝[≠] 0) (𝓝 0) := by
+  refine ⟨h.sum_eq, ?_⟩
+  rw [← h.sum_eq]
+  exact prodExp_first_order As
+
+open scoped Matrix.Norms.L2Operator in
+/-- **C07 (second-order local error)** in the spectral norm, with `s = Σ‖A_k‖`:  `‖F(t) − exp(tΣA)‖ ≤ (s²e^s)·t²` for
+    `|t| ≤ 1` (Taylor remainder of the exponential series; explicit constant). -/
+theorem product_formula_second_order (As : List (Matrix n n ℂ)) (t : ℝ) (ht : |t| ≤ 1) :
+    ‖prodExp As t - exp (t • As.sum)‖ ≤ ((As.map norm).sum ^ 2 * Real.exp (As.map norm).sum) * t ^ 2 := by
+  have h := prodExp_second_order As t
+  have hs := list_sum_norm_nonneg As
+  generalize (As.map norm).sum = s at h hs ⊢
+  have hle : |t| * s ≤ s := by
+    calc |t| * s ≤ 1 * s := mul_le_mul_of_nonneg_right ht hs
+      _ = s := one_mul s
+  have hexp := Real.exp_le_exp.mpr hle
+  calc ‖prodExp As t - exp (t • As.sum)‖ ≤ t ^ 2 * s ^ 2 * Real.exp (|t| * s) := h
+    _ ≤ t ^ 2 * s ^ 2 * Real.exp s := mul_le_mul_of_nonneg_left hexp (by positivity)
+    _ = s ^ 2 * Real.exp s * t ^ 2 := by ring
+
+open scoped Matrix.Norms.L2Operator in
+/-- **C07 (errors add for unitary steps)** for unitary `U`, `V`:  `‖U^N − V^N‖ ≤ N·‖U − V‖` (spectral norm). -/
+theorem unitary_pow_sub_pow_le (U V : Matrix n n ℂ) (hU : Uᴴ * U = 1) (hV : Vᴴ * V = 1) (N : ℕ) :
+    ‖U ^ N - V ^ N‖ ≤ N * ‖U - V‖ :=
+  norm_pow_sub_pow_le U V (l2_norm_le_one_of_unitary hU) (l2_norm_le_one_of_unitary hV) N
+
+open scoped Matrix.Norms.L2Operator in
+/-- **C07 (`trotter_converges`: the property's convergence claim)** for skew-Hermitian `A_k` (each factor `exp(tA_k)` is
+    unitary) the `N`-step product with step `T/N` satisfies `‖F(T/N)^N − exp(T·ΣA)‖ ≤ T²s²e^{|T|s}/N`, `s = Σ‖A_k‖`, and
+    therefore converges to `exp(T·ΣA)` as the step shrinks. -/
+theorem trotter_converges (As : List (Matrix n n ℂ)) (hskew : ∀ A ∈ As, Aᴴ = -A) (T : ℝ) :
+    (∀ N : ℕ, 0 < N → ‖prodExp As (T / N) ^ N - exp (T • As.sum)‖
+        ≤ T ^ 2 * (As.map norm).sum ^ 2 * Real.exp (|T| * (As.map norm).sum) / N) ∧
+    Tendsto (fun N : ℕ => prodExp As (T / N) ^ N) atTop (𝓝 (exp (T • As.sum))) :=
+  ⟨fun N hN => trotter_global_bound As hskew T N hN, trotter_tendsto As hskew T⟩
+
+-- non-vacuity: A = -iX, B = -iZ on one qubit are skew-Hermitian and do not commute
+example : (∀ A ∈ [(-Complex.I) • (!![0, 1; 1, 0] : Matrix (Fin 2) (Fin 2) ℂ), (-Complex.I) • !![1, 0; 0, -1]], Aᴴ = -A) := by
+  intro A hA
+  simp only [List.mem_cons, List.not_mem_nil, or_false] at hA
+  rcases hA with rfl | rfl <;>
+    · ext i j
+      fin_cases i <;> fin_cases j <;> simp [Matrix.conjTranspose_apply]
+example : prodExp [(-Complex.I) • (!![0, 1; 1, 0] : Matrix (Fin 2) (Fin 2) ℂ), (-Complex.I) • !![1, 0; 0, -1]] 0 = 1 :=
+  (product_formula_deriv _).1
+
+end product_formula
+
+/-! ## the library circuits -/
+
+/-- **C07 (dense matrix of a Pauli string)** `pauliMat L ops` is the Kronecker product of the 2 × 2 Pauli matrices of `ops`
+    with site 0 as the leftmost factor (`kron(A, B)[i, j] = A[i / r, j / r]·B[i % r, j % r]`), and it is Hermitian. -/
+theorem pauli_string_matrix (L : Nat) (o : Op) (os : List Op) (i j : Fin (2 ^ L)) :
+    pauliMat L (o :: os) i j =
+      pauliC o (i.val / 2 ^ os.length) (j.val / 2 ^ os.length)
+        * pauliEntry os (i.val % 2 ^ os.length) (j.val % 2 ^ os.length) ∧
+    pauliMat L ([] : List Op) i j = 1 ∧
+    (pauliMat L (o :: os))ᴴ = pauliMat L (o :: os) :=
+  ⟨rfl, rfl, pauliMat_conjTranspose L _⟩
+
+/-- **C07 (generators)** `genMat (P, c) = -i·c·P` is skew-Hermitian, so the gate `exp(genMat g)` is unitary -/
+theorem generator_skew (L : Nat) (g : List Op × Rat) :
+    (genMat L g)ᴴ = -genMat L g ∧ (exp (genMat L g))ᴴ * exp (genMat L g) = 1 :=
+  ⟨genMat_skew L g, exp_skew_unitary (genMat_skew L g)⟩
+
+example : pauliEntry [Op.X, Op.Z] 1 3 = -1 ∧ pauliEntry [Op.X, Op.Z] 0 2 = 1 ∧ pauliEntry [Op.X, Op.Z] 0 1 = 0 := by
+  refine ⟨?_, ?_, ?_⟩ <;> apply Complex.ext <;> simp [pauliEntry, pauliC, pauli]
+
+/-- **C07 (the generators are linear in `dt`)** `θ = -2·dt·c`: for each of the four spin builders the generators of one step at
+    step size `dt` are the generators at `dt = 1` with every coefficient multiplied by `dt`; consequently the step unitary at
+    `dt` is the curve `t ↦ Π exp(t·genMat g)` over the generators at `dt = 1`, evaluated at `t = dt`. -/
+theorem step_generators_scale (L R C : Nat) (per : Bool) (J g Jx Jy Jz h dt : Rat) :
+    stepGens L (isingStep L per J g dt) = (stepGens L (isingStep L per J g 1)).map (scaleGen dt) ∧
+    stepGens L (heisenbergStep L per Jx Jy Jz h dt) = (stepGens L (heisenbergStep L per Jx Jy Jz h 1)).map (scaleGen dt) ∧
+    stepGens (R * C) (ising2dStep R C J g dt) = (stepGens (R * C) (ising2dStep R C J g 1)).map (scaleGen dt) ∧
+    stepGens (R * C) (heisenberg2dStep R C Jx Jy Jz h dt)
+      = (stepGens (R * C) (heisenberg2dStep R C Jx Jy Jz h 1)).map (scaleGen dt) ∧
+    (∀ gens : List (List Op × Rat), stepUnitary L (gens.map (scaleGen dt)) = stepCurve L gens (dt : ℝ)) := by
+  refine ⟨ising_gens_scale L per J g dt, heisenberg_gens_scale L per Jx Jy Jz h dt, ?_, ?_,
+    fun gens => stepUnitary_scale L dt gens⟩
+  · rw [ising2d_gens_eq_terms, ising2d_gens_eq_terms, termGens_scale]
+  · rw [heisenberg2d_gens_eq_terms, heisenberg2d_gens_eq_terms, termGens_scale]
+
+example : stepGens 2 (isingStep 2 false 1 (1/2) (1/10)) = (stepGens 2 (isingStep 2 false 1 (1/2) 1)).map (scaleGen (1/10)) ∧
+    stepGens 2 (isingStep 2 false 1 (1/2) 1) = [([.X, .I], -1/2), ([.I, .X], -1/2), ([.Z, .Z], -1)] := by decide +kernel
+
+/-- **C07 (the circuit unitary is the step unitary to the power `timesteps`)** with `circuits_repeat_step`: for every gate list
+    `step`, the generators of `step` repeated `n` times give the `n`-th power of the step unitary -/
+theorem circuit_unitary_is_power (L n : Nat) (step : List Gate) :
+    stepUnitary L (stepGens L (repeatSteps n step)) = stepUnitary L (stepGens L step) ^ n :=
+  stepUnitary_repeat L n step
+
+/-- **C07 (the 2-D builders implement their documented Hamiltonians)** the generators of one step of `create_2d_ising_circuit` /
+    `create_2d_heisenberg_circuit` are exactly (same order) the `dt`-scaled terms of `-J Σ_{⟨pq⟩} Z_pZ_q - g Σ_p X_p` resp.
+    `-Σ_{⟨pq⟩}(Jx XX + Jy YY + Jz ZZ) - h Σ_p Z_p` over the grid bonds of `grid_edges_once` in snake order -/
+theorem grid_step_generators (R C : Nat) (J g Jx Jy Jz h dt : Rat) :
+    stepGens (R * C) (ising2dStep R C J g dt) = termGens (R * C) dt (ising2dTerms R C J g) ∧
+    stepGens (R * C) (heisenberg2dStep R C Jx Jy Jz h dt) = termGens (R * C) dt (heisenberg2dTerms R C Jx Jy Jz h) :=
+  ⟨ising2d_gens_eq_terms R C J g dt, heisenberg2d_gens_eq_terms R C Jx Jy Jz h dt⟩
+
+example : ising2dTerms 2 2 1 (1/2) =
+    [(-1/2, [(.X, 0)]), (-1/2, [(.X, 1)]), (-1/2, [(.X, 3)]), (-1/2, [(.X, 2)]),
+     (-1, [(.Z, 0), (.Z, 1)]), (-1, [(.Z, 3), (.Z, 2)]), (-1, [(.Z, 0), (.Z, 3)]), (-1, [(.Z, 1), (.Z, 2)])] := by
+  decide +kernel
+
+section consistent
+open scoped Matrix.Norms.Operator
+
+/-- the common argument: a step whose generators at `dt = 1` have the same sum as `-i·H` -/
+private theorem step_consistent_of (L : Nat) (step : Rat → List Gate) (H : Matrix (Fin (2 ^ L)) (Fin (2 ^ L)) ℂ)
+    (hscale : ∀ dt, stepGens L (step dt) = (stepGens L (step 1)).map (scaleGen dt))
+    (hsum : genSum L (stepGens L (step 1)) = (-Complex.I) • H) :
+    (∀ dt : Rat, stepUnitary L (stepGens L (step dt)) = stepCurve L (stepGens L (step 1)) (dt : ℝ)) ∧
+    stepCurve L (stepGens L (step 1)) 0 = 1 ∧
+    HasDerivAt (stepCurve L (stepGens L (step 1))) ((-Complex.I) • H) 0 := by
+  refine ⟨fun dt => by rw [hscale dt, stepUnitary_scale], prodExp_zero _, ?_⟩
+  rw [← hsum]
+  exact hasDerivAt_prodExp _
+
+/-- **C07 (`ising_step_consistent`)** One step of `create_ising_circuit(L, J, g, dt, ·, periodic)` is, as a function of the step
+    size, the curve `U(t) = Π_k exp(t·(-i c_k P_k))` over its generators at `dt = 1` evaluated at `t = dt`; `U(0) = 1` and
+    `dU/dt(0) = -i·H_Ising` with `H_Ising = Σ coeff·(Pauli string)` over exactly the terms `MPO.ising(L, J, g, bc)` hands to
+    `from_pauli_sum` (`isingTerms`) — the derivative the circuit has is the Hamiltonian the MPO builder of the same name
+    documents.  (Through `ising_step_generators`: permutation ⇒ same sum; `product_formula_deriv`.) -/
+theorem ising_step_consistent (L : Nat) (per : Bool) (J g : Rat) (h : L ≠ 1 ∨ per = false) :
+    (∀ dt : Rat, stepUnitary L (stepGens L (isingStep L per J g dt))
+        = stepCurve L (stepGens L (isingStep L per J g 1)) (dt : ℝ)) ∧
+    stepCurve L (stepGens L (isingStep L per J g 1)) 0 = 1 ∧
+    HasDerivAt (stepCurve L (stepGens L (isingStep L per J g 1)))
+      ((-Complex.I) • hamMat L (isingTerms L per J g)) 0 :=
+  step_consistent_of L (fun dt => isingStep L per J g dt) _ (ising_gens_scale L per J g)
+    (by rw [genSum_perm L (ising_step_generators L per J g 1 h), genSum_eq_ham]; rfl)
+
+/-- the generators of one Heisenberg step and the `dt`-scaled terms of `MPO.heisenberg` have the same sum, for every field `h`
+    (for `h = 0` the MPO omits the field terms and the circuit keeps `rz(0)` gates, whose generators vanish) -/
+private theorem heisenberg_genSum (L : Nat) (per : Bool) (Jx Jy Jz h : Rat) (hl : L ≠ 1 ∨ per = false) :
+    genSum L (stepGens L (heisenbergStep L per Jx Jy Jz h 1))
+      = (-Complex.I) • hamMat L (heisenbergTerms L per Jx Jy Jz h) := by
+  rw [← genSum_filter_nonzero, genSum_perm L (heisenberg_step_generators_nonzero L per Jx Jy Jz h 1 hl),
+    genSum_filter_nonzero, genSum_eq_ham]
+  rfl
+
+/-- **C07 (`heisenberg_step_consistent`)** the same for `create_heisenberg_circuit` and `MPO.heisenberg` (`heisenbergTerms`), for
+    every field value including `h = 0`. -/
+theorem heisenberg_step_consistent (L : Nat) (per : Bool) (Jx Jy Jz h : Rat) (hl : L ≠ 1 ∨ per = false) :
+    (∀ dt : Rat, stepUnitary L (stepGens L (heisenbergStep L per Jx Jy Jz h dt))
+        = stepCurve L (stepGens L (heisenbergStep L per Jx Jy Jz h 1)) (dt : ℝ)) ∧
+    stepCurve L (stepGens L (heisenbergStep L per Jx Jy Jz h 1)) 0 = 1 ∧
+    HasDerivAt (stepCurve L (stepGens L (heisenbergStep L per Jx Jy Jz h 1)))
+      ((-Complex.I) • hamMat L (heisenbergTerms L per Jx Jy Jz h)) 0 :=
+  step_consistent_of L (fun dt => heisenbergStep L per Jx Jy Jz h dt) _ (heisenberg_gens_scale L per Jx Jy Jz h)
+    (heisenberg_genSum L per Jx Jy Jz h hl)
+
+/-- **C07 (`ising2d_step_consistent`)** one step of `create_2d_ising_circuit(R, C, J, g, dt, ·)`: `dU/dt(0) = -i·H` with
+    `H = -J Σ_{grid bonds} ZZ - g Σ X` (`ising2dTerms`, snake order) -/
+theorem ising2d_step_consistent (R C : Nat) (J g : Rat) :
+    (∀ dt : Rat, stepUnitary (R * C) (stepGens (R * C) (ising2dStep R C J g dt))
+        = stepCurve (R * C) (stepGens (R * C) (ising2dStep R C J g 1)) (dt : ℝ)) ∧
+    stepCurve (R * C) (stepGens (R * C) (ising2dStep R C J g 1)) 0 = 1 ∧
+    HasDerivAt (stepCurve (R * C) (stepGens (R * C) (ising2dStep R C J g 1)))
+      ((-Complex.I) • hamMat (R * C) (ising2dTerms R C J g)) 0 :=
+  step_consistent_of (R * C) (fun dt => ising2dStep R C J g dt) _
+    (fun dt => (step_generators_scale 0 R C false J g 0 0 0 0 dt).2.2.1)
+    (by rw [ising2d_gens_eq_terms, genSum_eq_ham]; rfl)
+
+/-- **C07 (`heisenberg2d_step_consistent`)** one step of `create_2d_heisenberg_circuit`: `dU/dt(0) = -i·H` with
+    `H = -Σ_{grid bonds}(Jx XX + Jy YY + Jz ZZ) - h Σ Z` (`heisenberg2dTerms`) -/
+theorem heisenberg2d_step_consistent (R C : Nat) (Jx Jy Jz h : Rat) :
+    (∀ dt : Rat, stepUnitary (R * C) (stepGens (R * C) (heisenberg2dStep R C Jx Jy Jz h dt))
+        = stepCurve (R * C) (stepGens (R * C) (heisenberg2dStep R C Jx Jy Jz h 1)) (dt : ℝ)) ∧
+    stepCurve (R * C) (stepGens (R * C) (heisenberg2dStep R C Jx Jy Jz h 1)) 0 = 1 ∧
+    HasDerivAt (stepCurve (R * C) (stepGens (R * C) (heisenberg2dStep R C Jx Jy Jz h 1)))
+      ((-Complex.I) • hamMat (R * C) (heisenberg2dTerms R C Jx Jy Jz h)) 0 :=
+  step_consistent_of (R * C) (fun dt => heisenberg2dStep R C Jx Jy Jz h dt) _
+    (fun dt => (step_generators_scale 0 R C false 0 0 Jx Jy Jz h dt).2.2.2.1)
+    (by rw [heisenberg2d_gens_eq_terms, genSum_eq_ham]; rfl)
+
+end consistent
+
+-- non-vacuity: the hypotheses are met by a periodic 3-chain, and the derivative is not zero there
+example := ising_step_consistent 3 true 1 (1 / 2) (Or.inl (by decide))
+example := heisenberg_step_consistent 4 true 1 2 3 0 (Or.inl (by decide))
+example : termGens 3 1 (isingTerms 3 true 1 (1 / 2)) =
+    [([.Z, .Z, .I], -1), ([.I, .Z, .Z], -1), ([.Z, .I, .Z], -1), ([.X, .I, .I], -1/2), ([.I, .X, .I], -1/2), ([.I, .I, .X], -1/2)] := by
+  decide +kernel
+
+section converges
+open scoped Matrix.Norms.L2Operator
+
+/-- the common argument of the four convergence theorems -/
+private theorem converges_of (L : Nat) (step : Rat → List Gate) (H : Matrix (Fin (2 ^ L)) (Fin (2 ^ L)) ℂ)
+    (hscale : ∀ dt, stepGens L (step dt) = (stepGens L (step 1)).map (scaleGen dt))
+    (hsum : genSum L (stepGens L (step 1)) = (-Complex.I) • H) (T : Rat) :
+    (∀ N : ℕ, 0 < N →
+      ‖stepUnitary L (stepGens L (repeatSteps N (step (T / N)))) - exp ((T : ℝ) • ((-Complex.I) • H))‖
+        ≤ (T : ℝ) ^ 2 * (((stepGens L (step 1)).map (genMat L)).map norm).sum ^ 2
+            * Real.exp (|(T : ℝ)| * (((stepGens L (step 1)).map (genMat L)).map norm).sum) / N) ∧
+    Tendsto (fun N : ℕ => stepUnitary L (stepGens L (repeatSteps N (step (T / N))))) atTop
+      (𝓝 (exp ((T : ℝ) • ((-Complex.I) • H)))) := by
+  rw [← hsum]
+  exact ⟨fun N hN => circuit_trotter_bound L step _ hscale T N hN, circuit_trotter_tendsto L step _ hscale T⟩
+
+/-- **C07 (`ising_trotter_converges`)** the circuit `create_ising_circuit(L, J, g, T/N, N, periodic)` — `N` steps of size `T/N`,
+    by `circuits_repeat_step` — is within `T²s²e^{|T|s}/N` (spectral norm; `s` = sum of the norms of the step's generators at
+    `dt = 1`) of `exp(-i·T·H_Ising)`, `H_Ising` the operator of `MPO.ising` with the same parameters and boundary condition,
+    and converges to it as `N → ∞`: the error is `∝ 1/N`. -/
+theorem ising_trotter_converges (L : Nat) (per : Bool) (J g : Rat) (h : L ≠ 1 ∨ per = false) (T : Rat) :
+    (∀ N : ℕ, 0 < N →
+      ‖stepUnitary L (stepGens L (isingCircuit L per J g (T / N) N))
+          - exp ((T : ℝ) • ((-Complex.I) • hamMat L (isingTerms L per J g)))‖
+        ≤ (T : ℝ) ^ 2 * (((stepGens L (isingStep L per J g 1)).map (genMat L)).map norm).sum ^ 2
+            * Real.exp (|(T : ℝ)| * (((stepGens L (isingStep L per J g 1)).map (genMat L)).map norm).sum) / N) ∧
+    Tendsto (fun N : ℕ => stepUnitary L (stepGens L (isingCircuit L per J g (T / N) N))) atTop
+      (𝓝 (exp ((T : ℝ) • ((-Complex.I) • hamMat L (isingTerms L per J g))))) :=
+  converges_of L (fun dt => isingStep L per J g dt) _ (ising_gens_scale L per J g)
+    (by rw [genSum_perm L (ising_step_generators L per J g 1 h), genSum_eq_ham]; rfl) T
+
+/-- **C07 (`heisenberg_trotter_converges`)** the same for `create_heisenberg_circuit` and `MPO.heisenberg`, every field value -/
+theorem heisenberg_trotter_converges (L : Nat) (per : Bool) (Jx Jy Jz h : Rat) (hl : L ≠ 1 ∨ per = false) (T : Rat) :
+    (∀ N : ℕ, 0 < N →
+      ‖stepUnitary L (stepGens L (heisenbergCircuit L per Jx Jy Jz h (T / N) N))
+          - exp ((T : ℝ) • ((-Complex.I) • hamMat L (heisenbergTerms L per Jx Jy Jz h)))‖
+        ≤ (T : ℝ) ^ 2 * (((stepGens L (heisenbergStep L per Jx Jy Jz h 1)).map (genMat L)).map norm).sum ^ 2
+            * Real.exp (|(T : ℝ)| * (((stepGens L (heisenbergStep L per Jx Jy Jz h 1)).map (genMat L)).map norm).sum) / N) ∧
+    Tendsto (fun N : ℕ => stepUnitary L (stepGens L (heisenbergCircuit L per Jx Jy Jz h (T / N) N))) atTop
+      (𝓝 (exp ((T : ℝ) • ((-Complex.I) • hamMat L (heisenbergTerms L per Jx Jy Jz h))))) :=
+  converges_of L (fun dt => heisenbergStep L per Jx Jy Jz h dt) _ (heisenberg_gens_scale L per Jx Jy Jz h)
+    (heisenberg_genSum L per Jx Jy Jz h hl) T
+
+/-- **C07 (`ising2d_trotter_converges`)** `create_2d_ising_circuit(R, C, J, g, T/N, N)` against `exp(-i·T·H)`, `H` of `ising2dTerms` -/
+theorem ising2d_trotter_converges (R C : Nat) (J g : Rat) (T : Rat) :
+    (∀ N : ℕ, 0 < N →
+      ‖stepUnitary (R * C) (stepGens (R * C) (ising2dCircuit R C J g (T / N) N))
+          - exp ((T : ℝ) • ((-Complex.I) • hamMat (R * C) (ising2dTerms R C J g)))‖
+        ≤ (T : ℝ) ^ 2 * (((stepGens (R * C) (ising2dStep R C J g 1)).map (genMat (R * C))).map norm).sum ^ 2
+            * Real.exp (|(T : ℝ)| * (((stepGens (R * C) (ising2dStep R C J g 1)).map (genMat (R * C))).map norm).sum) / N) ∧
+    Tendsto (fun N : ℕ => stepUnitary (R * C) (stepGens (R * C) (ising2dCircuit R C J g (T / N) N))) atTop
+      (𝓝 (exp ((T : ℝ) • ((-Complex.I) • hamMat (R * C) (ising2dTerms R C J g))))) :=
+  converges_of (R * C) (fun dt => ising2dStep R C J g dt) _
+    (fun dt => (step_generators_scale 0 R C false J g 0 0 0 0 dt).2.2.1)
+    (by rw [ising2d_gens_eq_terms, genSum_eq_ham]; rfl) T
+
+/-- **C07 (`heisenberg2d_trotter_converges`)** `create_2d_heisenberg_circuit` against `exp(-i·T·H)`, `H` of `heisenberg2dTerms` -/
+theorem heisenberg2d_trotter_converges (R C : Nat) (Jx Jy Jz h : Rat) (T : Rat) :
+    (∀ N : ℕ, 0 < N →
+      ‖stepUnitary (R * C) (stepGens (R * C) (heisenberg2dCircuit R C Jx Jy Jz h (T / N) N))
+          - exp ((T : ℝ) • ((-Complex.I) • hamMat (R * C) (heisenberg2dTerms R C Jx Jy Jz h)))‖
+        ≤ (T : ℝ) ^ 2 * (((stepGens (R * C) (heisenberg2dStep R C Jx Jy Jz h 1)).map (genMat (R * C))).map norm).sum ^ 2
+            * Real.exp (|(T : ℝ)|
+                * (((stepGens (R * C) (heisenberg2dStep R C Jx Jy Jz h 1)).map (genMat (R * C))).map norm).sum) / N) ∧
+    Tendsto (fun N : ℕ => stepUnitary (R * C) (stepGens (R * C) (heisenberg2dCircuit R C Jx Jy Jz h (T / N) N))) atTop
+      (𝓝 (exp ((T : ℝ) • ((-Complex.I) • hamMat (R * C) (heisenberg2dTerms R C Jx Jy Jz h))))) :=
+  converges_of (R * C) (fun dt => heisenberg2dStep R C Jx Jy Jz h dt) _
+    (fun dt => (step_generators_scale 0 R C false 0 0 Jx Jy Jz h dt).2.2.2.1)
+    (by rw [heisenberg2d_gens_eq_terms, genSum_eq_ham]; rfl) T
+
+end converges
+
+example := ising_trotter_converges 3 true 1 (1 / 2) (Or.inl (by decide)) (3 / 10)
+example := heisenberg2d_trotter_converges 2 3 1 2 3 (1 / 2) (3 / 10)
+
+/-! ## circuit and MPO builder of the same name describe the same Hamiltonian -/
+
+/-- **C07 (`hamMat` is what `from_pauli_sum` encodes)** for every term list `from_pauli_sum` accepts and every `L ≥ 1`, entry
+    `(i, j)` of `hamMat L terms` — the operator whose first-order product formula the circuit step is — equals the path sum of
+    the automaton `from_pauli_sum` builds from the same terms (`fsm_sum`; the function the driver runs and the `fsm-*` ties
+    compare with the real tensors), at the binary digits `cfg L i`, `cfg L j` (site 0 most significant). -/
+theorem circuit_mpo_same_hamiltonian (L : Nat) (hL : 1 ≤ L) (terms : List (Rat × Spec)) (pt : List (GRat × List Op))
+    (h : parseTerms L (terms.map fun t => (GRat.ofRat t.1, t.2)) = some pt) (i j : Fin (2 ^ L)) :
+    hamMat L terms i j = (fsmPathSum pauli pt L (cfg L i.val) (cfg L j.val)).toC := by
+  rw [fsm_sum_complex pt L hL]
+  exact hamMat_entry_termSum L terms pt h i j
+
+/-- **C07 (index digits)** `cfg L i` are the digits `unflat [2, …, 2] i` of C06's index map: the digits at which `to_matrix_entry` /
+    `dense_eq_sparse` place a bond path sum in `MPO.to_matrix()` -/
+theorem index_digits (L i k : Nat) (hk : k < L) :
+    (Yaqs.Index.unflat (List.replicate L 2) i).getD k 0 = cfg L i k ∧ cfg L i k = i / 2 ^ (L - 1 - k) % 2 :=
+  ⟨cfg_eq_unflat L i k hk, rfl⟩
+
+/-- **C07 (last clause: "… which for Ising and Heisenberg chains is the Hamiltonian builder of the same name")** for every
+    `L ≥ 1` and boundary condition on which `MPO.ising` does not raise, `from_pauli_sum` accepts all terms of `MPO.ising(L, J, g, bc)`
+    and the path sum of the automaton it builds is, entry by entry, the matrix `hamMat L (isingTerms …)` whose `-i` multiple is
+    the derivative of the circuit step (`ising_step_consistent`) and whose exponential the circuit converges to
+    (`ising_trotter_converges`). -/
+theorem ising_circuit_mpo_same_hamiltonian (L : Nat) (per : Bool) (J g : Rat) (hL : 1 ≤ L) (h : L ≠ 1 ∨ per = false) :
+    ∃ pt, parseTerms L ((isingTerms L per J g).map fun t => (GRat.ofRat t.1, t.2)) = some pt ∧
+      ∀ i j : Fin (2 ^ L),
+        hamMat L (isingTerms L per J g) i j = (fsmPathSum pauli pt L (cfg L i.val) (cfg L j.val)).toC := by
+  obtain ⟨pt, hpt⟩ := parseTerms_of_accepted L GRat.ofRat (isingTerms L per J g) (mpoTerms_accepted L per _ _ h)
+  exact ⟨pt, hpt, fun i j => circuit_mpo_same_hamiltonian L hL _ pt hpt i j⟩
+
+/-- the same for `MPO.heisenberg` / `create_heisenberg_circuit` -/
+theorem heisenberg_circuit_mpo_same_hamiltonian (L : Nat) (per : Bool) (Jx Jy Jz h : Rat) (hL : 1 ≤ L)
+    (hl : L ≠ 1 ∨ per = false) :
+    ∃ pt, parseTerms L ((heisenbergTerms L per Jx Jy Jz h).map fun t => (GRat.ofRat t.1, t.2)) = some pt ∧
+      ∀ i j : Fin (2 ^ L),
+        hamMat L (heisenbergTerms L per Jx Jy Jz h) i j = (fsmPathSum pauli pt L (cfg L i.val) (cfg L j.val)).toC := by
+  obtain ⟨pt, hpt⟩ := parseTerms_of_accepted L GRat.ofRat (heisenbergTerms L per Jx Jy Jz h) (mpoTerms_accepted L per _ _ hl)
+  exact ⟨pt, hpt, fun i j => circuit_mpo_same_hamiltonian L hL _ pt hpt i j⟩
+
+example : parseTerms 2 ((isingTerms 2 false 1 (1 / 2)).map fun t => (GRat.ofRat t.1, t.2)) =
+    some [(⟨-1, 0⟩, [.Z, .Z]), (⟨-1/2, 0⟩, [.X, .I]), (⟨-1/2, 0⟩, [.I, .X])] := by decide +kernel
+example : cfg 3 5 0 = 1 ∧ cfg 3 5 1 = 0 ∧ cfg 3 5 2 = 1 ∧ Yaqs.Index.unflat [2, 2, 2] 5 = [1, 0, 1] := by decide
+
+end Yaqs.Trotter
